@@ -116,6 +116,18 @@ def build(rng, P, rep, table_mode=False):
     inputs['a2'] = (lambda v: setattr(src2, 'a', v), 'num')
     inputs['s'] = (lambda v: setattr(src, 's', v), 'str')
     inputs['l'] = (lambda v: setattr(src, 'l', v), 'list')
+    dval, sval = [{'size': 5, 'b': 1}], [{1, 2}]
+    droot, sroot = rx(dval[0]), rx(sval[0])
+
+    def set_d(v):
+        dval[0] = v
+        droot.rx.value = v
+
+    def set_s(v):
+        sval[0] = v
+        sroot.rx.value = v
+    inputs['D'] = (set_d, 'dict')
+    inputs['S'] = (set_s, 'set')
     nodes = [Node(roots[0], lambda: rootvals[0], 'r0', 'num', 'root', ins=['r0']),
              Node(roots[1], lambda: rootvals[1], 'r1', 'num', 'root', ins=['r1']),
              Node(src.param.a.rx(), lambda: src.a, 'pa', 'num', 'param', ins=['a']),
@@ -126,6 +138,9 @@ def build(rng, P, rep, table_mode=False):
                   ins=['a', 'a2']),
              Node(rx(bind(lambda x, k=1: x + k, roots[0], k=src.param.a)), lambda: rootvals[0] + src.a, 'bind(r0,k=a)', 'num', 'bind',
                   ins=['r0', 'a'])]
+    dnode = Node(droot, lambda: dval[0], 'D', 'dict', 'root', ins=['D'])
+    snode = Node(sroot, lambda: sval[0], 'S', 'set', 'root', ins=['S'])
+    nodes += [dnode, snode]
     dropped = [0]
     leaf_only = []
 
@@ -149,6 +164,22 @@ def build(rng, P, rep, table_mode=False):
 
     def small():
         return rng.choice([0, 1, 2, 3, 5, -1, 7, 2.5])
+
+    CONTAINER_FORMS = [
+        ('dict', 'or', operator.or_, {'size': 1, 'color': 'red'}), ('set', 'or', operator.or_, frozenset({2, 3})),
+        ('set', 'and', operator.and_, frozenset({2, 3})), ('set', 'xor', operator.xor, frozenset({2, 3})),
+        ('set', 'sub', operator.sub, frozenset({2, 3})), ('str', 'add', operator.add, 'x'), ('list', 'add', operator.add, [0]),
+        ('str', 'mod', operator.mod, '<%s>'), ('list', 'mul', operator.mul, 2), ('str', 'mul', operator.mul, 2)]
+
+    def grow_container(form=None, reflected=None):
+        typ, name, op, const = form or rng.choice(CONTAINER_FORMS)
+        x = rng.choice([n for n in nodes if n.typ == typ] or [dnode])
+        if x.typ != typ:
+            return
+        if rng.random() < 0.5 if reflected is None else reflected:
+            add(lambda: op(const, x.rx), lambda: op(const, x.ev()), f'({const!r} {name} {x.desc})', 'any', f'bin:{name}:const-rx:{typ}', (x,))
+        else:
+            add(lambda: op(x.rx, const), lambda: op(x.ev(), const), f'({x.desc} {name} {const!r})', 'any', f'bin:{name}:rx-const:{typ}', (x,))
 
     def grow():
         k = rng.random()
@@ -192,6 +223,9 @@ def build(rng, P, rep, table_mode=False):
                 add(lambda: x.rx.count('a'), lambda: x.ev().count('a'), f'{x.desc}.count(a)', 'num', 'method', (x,))
             else:
                 add(lambda: x.rx + '!', lambda: x.ev() + '!', f'({x.desc}+"!")', 'str', 'bin:rx-const', (x,))
+        elif k < 0.545:
+            # operators whose operands are containers: the order of the operands matters (dict merge, set type, concatenation)
+            grow_container()
         elif k < 0.6:
             x = rng.choice(of('list') + of('str'))
             i = rng.choice(of('num'))
@@ -213,10 +247,25 @@ def build(rng, P, rep, table_mode=False):
                 add(lambda: x.rx[0], lambda: x.ev()[0], f'{x.desc}[0]', 'any', 'index:const', (x,))
             else:
                 add(lambda: x.rx[i.rx], lambda: x.ev()[i.ev()], f'{x.desc}[{i.desc}]', 'any', 'index:rx', (x, i))
-        elif k < 0.66:
+        elif k < 0.63:
             x, y = rng.choice(nodes), rng.choice(nodes)
             f = lambda v, w: (v, w)    # noqa: E731
             add(lambda: x.rx.rx.pipe(f, y.rx), lambda: (x.ev(), y.ev()), f'pipe({x.desc},{y.desc})', 'any', 'pipe', (x, y))
+        elif k < 0.66:
+            # inputs handed over as keyword arguments
+            c = rng.randrange(3)
+            if c == 0:
+                x, y = rng.choice(nodes), rng.choice(nodes)
+                g = lambda v, w=None, extra=0: (v, w, extra)    # noqa: E731
+                add(lambda: x.rx.rx.pipe(g, extra=1, w=y.rx), lambda: (x.ev(), y.ev(), 1), f'pipe({x.desc},w={y.desc})', 'any', 'pipe:kwarg', (x, y))
+            elif c == 1:
+                x, i = rng.choice(of('str')), rng.choice(of('num'))
+                add(lambda: x.rx.split('a', maxsplit=i.rx), lambda: x.ev().split('a', maxsplit=i.ev()), f'{x.desc}.split(a,maxsplit={i.desc})',
+                    'list', 'method:kwarg', (x, i))
+            else:
+                x, y = rng.choice(of('list')), rng.choice(of('num'))
+                h = lambda v, k=0: (v, k)    # noqa: E731
+                add(lambda: x.rx.rx.map(h, k=y.rx), lambda: [h(v, k=y.ev()) for v in x.ev()], f'map({x.desc},k={y.desc})', 'list', 'map:kwarg', (x, y))
         elif k < 0.76:
             x, y, z = rng.choice(of('bool') + of('num')), rng.choice(nodes), rng.choice(nodes)
             if rng.random() < 0.5:
@@ -291,6 +340,10 @@ def build(rng, P, rep, table_mode=False):
         for name, op in UN:
             add(lambda op=op: op(x.rx), lambda op=op: op(x.ev()), f'{name}(r0)', 'num', 'un:' + name, (x,))
             rep.count('operator_forms')
+        for form in CONTAINER_FORMS:
+            grow_container(form, True)
+            grow_container(form, False)
+            rep.count('operator_forms', 2)
         # dedicated scenario: an attribute-access expression shared by two consumers
         zroot = rx(3 + 4j)
         znode = Node(zroot, lambda: zroot.rx.value, 'Z', 'any', 'root', ins=['Z'])
@@ -314,6 +367,8 @@ def build(rng, P, rep, table_mode=False):
     return nodes + leaf_only, inputs, dropped[0], grow_late
 
 
+DICTV = [{'size': 5, 'b': 1}, {}, {'color': 'blue'}, {'size': 7}, None]
+SETV = [{1, 2}, set(), {2, 3, 4}, frozenset({1}), {3}]
 NUMV = [0, 1, 2, 3, -2, 5, 2.5, 7, 'x', None, [1, 2]]
 STRV = ['abca', '', 'aa', 'Zed', 5]
 LISTV = [[1, 2, 3], [], [2, 2, 5, 1], [0], 'ab', 3]
@@ -382,7 +437,7 @@ def run_case(idx, rng, P, rep):
         if rng.random() < 0.4:
             name = rng.choice(list(inputs))
             setter, typ = inputs[name]
-            pool = {'num': NUMV, 'str': STRV, 'list': LISTV}[typ]
+            pool = {'num': NUMV, 'str': STRV, 'list': LISTV, 'dict': DICTV, 'set': SETV}[typ]
             v = rng.choice(pool[:8] if rng.random() < 0.8 else pool)
             before = [(n, outcome(n.ev)) for n, _ in watched]
             ncalls = [len(c) for _, c in watched]
